@@ -117,6 +117,10 @@ type Op struct {
 	Point string `json:"point"`
 	// inline
 	InlineID int `json:"inline_id"`
+	// inline_subscribe: a QoS 0 message published while the new subscription's handler runs for the first time (on a
+	// retained message), or right after Subscribe returned when nothing retained matches
+	DurM string   `json:"dur_m"`
+	DurT []string `json:"dur_t"`
 	// stall
 	Sleep int `json:"sleep_ms"`
 }
